@@ -5,19 +5,25 @@
 -/
 import Rox.Generated
 import Rox.Props.C01
-import Rox.Props.C03
 import Rox.Lemmas.GrammarSound
 
 namespace Rox.Lemmas
 open Rox Rox.Spec.Grammar
 
+/-- every byte is one of the 256 values (as `Rox.Props.C03.all_bytes`, restated here so that
+`Rox.Props.C08` can import this file) -/
+theorem all_bytes_g (P : UInt8 → Prop) (h : ∀ i : Fin 256, P (UInt8.ofNat i.val)) : ∀ b : UInt8, P b := by
+  intro b
+  have := h ⟨b.toNat, by have := b.toNat_lt; omega⟩
+  simpa using this
+
 /-- On ASCII the byte classes of the tokenizer's fast paths are contained in the character classes
 (re-checked whenever `Generated.lean` changes). -/
 theorem generated_tables_grammar : TablesGrammar Rox.Generated.tables := by
   refine ⟨?_, ?_, ?_⟩
-  · apply Rox.Props.C03.all_bytes; decide +kernel
-  · apply Rox.Props.C03.all_bytes; decide +kernel
-  · apply Rox.Props.C03.all_bytes; decide +kernel
+  · apply all_bytes_g; decide +kernel
+  · apply all_bytes_g; decide +kernel
+  · apply all_bytes_g; decide +kernel
 
 /-- **Grammar soundness for the tables of the build**: whatever `parse` accepts with
 `allow_dtd = false` is a well-formed XML 1.0 document (`Rox.Spec.Grammar.WellFormed`). -/
